@@ -51,8 +51,9 @@ type c22Voter struct {
 	key   int
 	env   *vEnv // nil for a Byzantine voter
 	phase c22Phase
-	next  int // sync cursor into the pool
-	nfin  int // SetFinalisedHash calls already judged
+	next  int   // sync cursor into the pool
+	nfin  int   // SetFinalisedHash calls already judged
+	held  []int // pool messages withheld from this voter by the partition, delivered when it heals
 	crash string
 }
 
@@ -90,8 +91,12 @@ type c22Sim struct {
 	byzV   map[string]int         // "key/stage/round" -> first block signed (equivocation detection)
 	finals []c22Final
 	gate   bool // steer around the known finding
-	log    []string
-	labels map[string]bool
+	// partition: while voter isoVictim has not left round isoRound, sync exchanges no
+	// message between it and the other honest voters (they are held back, not lost)
+	isoVictim int
+	isoRound  uint64
+	log       []string
+	labels    map[string]bool
 
 	equivocation bool
 	dropped      bool
@@ -122,7 +127,7 @@ func c22Deepest(tree *vTree, r int) int {
 
 func newC22Sim(n int, byz []int, parent []int, bests map[int]int, gate bool) (*c22Sim, error) {
 	sim := &c22Sim{n: n, tree: newVTree(parent), gate: gate, hpc: map[uint64]map[int]int{},
-		byzV: map[string]int{}, labels: map[string]bool{}}
+		byzV: map[string]int{}, labels: map[string]bool{}, isoVictim: -1}
 	isByz := map[int]bool{}
 	for _, b := range byz {
 		isByz[b] = true
@@ -461,10 +466,23 @@ func (sim *c22Sim) step(v *c22Voter) {
 // sync delivers to v every pool message addressed to it that sync has not
 // looked at yet; drop(i) decides that message i is lost for v.
 func (sim *c22Sim) sync(v *c22Voter, drop func(i int) bool) {
+	parted := sim.partitioned()
+	if !parted && len(v.held) > 0 {
+		held := v.held
+		v.held = nil
+		for _, mi := range held {
+			sim.deliver(v, mi)
+		}
+	}
 	end := len(sim.pool) // messages produced while syncing wait for the next sync
 	for ; v.next < end; v.next++ {
 		m := sim.pool[v.next]
 		if m.mask&(1<<uint(v.key)) == 0 {
+			continue
+		}
+		if parted && sim.voters[m.from].env != nil && (v.key == sim.isoVictim) != (m.from == sim.isoVictim) {
+			v.held = append(v.held, v.next)
+			sim.labels["partition-held-message"] = true
 			continue
 		}
 		if drop != nil && drop(v.next) {
@@ -472,6 +490,24 @@ func (sim *c22Sim) sync(v *c22Voter, drop func(i int) bool) {
 			continue
 		}
 		sim.deliver(v, v.next)
+	}
+}
+
+// partitioned: the isolated voter is still in (or before) the round of the partition.
+func (sim *c22Sim) partitioned() bool {
+	if sim.isoVictim < 0 {
+		return false
+	}
+	v := sim.voters[sim.isoVictim]
+	return v.phase != c22Done && v.phase != c22Crashed && v.env.svc.state.round <= sim.isoRound
+}
+
+// barrage: Byzantine voter b sends the votes seq (conflicting blocks, one round, one
+// stage) to the single honest voter v, one after the other.
+func (sim *c22Sim) barrage(b int, v *c22Voter, stage Subround, round uint64, seq []int) {
+	sim.logf("barrage k%d -> k%d: %s r%d blocks %v", b, v.key, stage, round, seq)
+	for _, blk := range seq {
+		sim.deliver(v, sim.byzVote(b, stage, blk, round, 1<<uint(v.key), b))
 	}
 }
 
@@ -551,7 +587,7 @@ func (sim *c22Sim) header() string {
 const c22Rule = "n in 4..7 voters (real ed25519 keys), f <= floor((n-1)/3) Byzantine, tree of 3-9 blocks with forks, per honest voter a real Service with its own block state and best block; " +
 	"schedule of 20-200 rapid-drawn events: honest voter performs its next step (initiateRound / pre-vote / pre-commit when a pre-vote supermajority is seen / attemptToFinalize+commit, as finalisation.go), " +
 	"sync (deliver all new messages to one voter, optionally lossy), deliver or duplicate one message of any age, Byzantine vote (any stage/block/round, to any subset, also with a forged authority id), " +
-	"Byzantine commit (any target/round, any subset of the pre-commit signatures on the network + fresh own ones + forged / duplicated entries, to any subset), Byzantine storm (votes for each voter's own best block, optionally forged ones for all others), best-block change, tick (all step + all sync); at most 3 rounds. " +
+	"Byzantine commit (any target/round, any subset of the pre-commit signatures on the network + fresh own ones + forged / duplicated entries, to any subset), Byzantine storm (votes for each voter's own best block, optionally forged ones for all others), Byzantine barrage (3-8 conflicting votes of one round and stage to one honest voter), best-block change, tick (all step + all sync); optional partition of one honest voter from the other honest voters for one round; at most 3 rounds. " +
 	"Oracle: all SetFinalisedHash blocks of all honest voters pairwise on one chain. Non-trivial = a non-genesis block was finalised and a Byzantine equivocation or a lost message occurred; distinct by (n, Byzantine set, tree, best blocks, event list)."
 
 func c22Subset(t *rapid.T, sim *c22Sim, label string) uint32 {
@@ -603,11 +639,35 @@ func c22Schedule(t *rapid.T, gate bool) *c22Sim {
 			bests[k] = leaves[rapid.IntRange(0, len(leaves)-1).Draw(t, "best")]
 		}
 	}
+	// a third of the schedules with a Byzantine voter: one honest voter is cut off from the other
+	// honest voters for one round (the Byzantine voters reach everybody) and prefers another leaf
+	iso, isoVictim := false, -1
+	if f > 0 && rapid.IntRange(0, 2).Draw(t, "isolate") == 0 {
+		iso = true
+		for {
+			isoVictim = rapid.IntRange(0, n-1).Draw(t, "victim")
+			isByz := false
+			for _, b := range byz {
+				isByz = isByz || b == isoVictim
+			}
+			if !isByz {
+				break
+			}
+		}
+		if rapid.IntRange(0, 3).Draw(t, "victimOwnBest") > 0 {
+			bests[isoVictim] = leaves[rapid.IntRange(0, len(leaves)-1).Draw(t, "victimBest")]
+		}
+	}
 	sim, err := newC22Sim(n, byz, tree.parent, bests, gate)
 	if err != nil {
 		t.Fatalf("harness: %v", err)
 	}
 	head := sim.header()
+	if iso {
+		sim.isoVictim = isoVictim
+		sim.isoRound = uint64(rapid.SampledFrom([]int{1, 1, 1, 2}).Draw(t, "isoRound")) //nolint:gosec
+		head += fmt.Sprintf(" partition=k%d@r%d", sim.isoVictim, sim.isoRound)
+	}
 	pickHonest := func(l string) *c22Voter {
 		return sim.voters[sim.honest[rapid.IntRange(0, len(sim.honest)-1).Draw(t, l)]]
 	}
@@ -634,7 +694,10 @@ func c22Schedule(t *rapid.T, gate bool) *c22Sim {
 	events := rapid.IntRange(20, 200).Draw(t, "events")
 	for e := 0; e < events && sim.violation == ""; e++ {
 		k := rapid.IntRange(0, 99).Draw(t, "event")
-		if len(byz) == 0 && k >= 64 && k < 92 {
+		if iso && rapid.IntRange(0, 2).Draw(t, "isoBias") == 0 {
+			k = rapid.SampledFrom([]int{86, 86, 78, 94, 94}).Draw(t, "isoEvent") // barrage, storm, tick
+		}
+		if len(byz) == 0 && k >= 60 && k < 92 {
 			k = 0
 		}
 		switch {
@@ -642,11 +705,11 @@ func c22Schedule(t *rapid.T, gate bool) *c22Sim {
 			v := pickHonest("stepper")
 			sim.logf("step k%d", v.key)
 			sim.step(v)
-		case k < 54:
+		case k < 52:
 			v := pickHonest("receiver")
 			sim.logf("sync k%d", v.key)
 			sim.sync(v, lossy())
-		case k < 64:
+		case k < 60:
 			if len(sim.pool) == 0 {
 				continue
 			}
@@ -654,7 +717,7 @@ func c22Schedule(t *rapid.T, gate bool) *c22Sim {
 			mi := rapid.IntRange(0, len(sim.pool)-1).Draw(t, "message")
 			sim.logf("deliver k%d <- m%d(%s)", v.key, mi, sim.pool[mi].descr)
 			sim.deliver(v, mi)
-		case k < 76:
+		case k < 70:
 			b := byz[rapid.IntRange(0, len(byz)-1).Draw(t, "byz")]
 			stage := rapid.SampledFrom([]Subround{prevote, prevote, prevote, prevote, precommit, precommit, precommit, precommit, primaryProposal}).Draw(t, "stage")
 			blk := pickBlock("byzBlock")
@@ -671,7 +734,7 @@ func c22Schedule(t *rapid.T, gate bool) *c22Sim {
 					sim.deliver(sim.voters[h], mi)
 				}
 			}
-		case k < 84:
+		case k < 78:
 			b := byz[rapid.IntRange(0, len(byz)-1).Draw(t, "byz")]
 			round := pickRound()
 			target := rapid.IntRange(0, tree.size()-1).Draw(t, "target")
@@ -730,7 +793,7 @@ func c22Schedule(t *rapid.T, gate bool) *c22Sim {
 					sim.deliver(sim.voters[h], mi)
 				}
 			}
-		case k < 92:
+		case k < 86:
 			// storm: every Byzantine voter tells one honest voter what would suit it - votes of the
 			// voter's current round for one block (mostly the voter's own best block or pre-vote),
 			// optionally also forged votes in the name of all other voters
@@ -773,6 +836,36 @@ func c22Schedule(t *rapid.T, gate bool) *c22Sim {
 						}
 					}
 				}
+			}
+		case k < 92:
+			// barrage: one Byzantine voter sends one honest voter 3..8 conflicting votes of one
+			// round and stage, alternating between 2-3 blocks, with a drawn last block
+			b := byz[rapid.IntRange(0, len(byz)-1).Draw(t, "byz")]
+			v := pickHonest("barrageTarget")
+			if iso && rapid.IntRange(0, 3).Draw(t, "barrageVictim") > 0 {
+				v = sim.voters[isoVictim]
+			}
+			cand := []int{v.env.bs.best, pickBlock("barrageB")}
+			if rapid.IntRange(0, 2).Draw(t, "barrageThree") == 0 {
+				cand = append(cand, pickBlock("barrageC"))
+			}
+			kk := rapid.IntRange(3, 8).Draw(t, "barrageLen")
+			start := rapid.IntRange(0, len(cand)-1).Draw(t, "barrageStart")
+			seq := make([]int, kk)
+			for i := range seq {
+				seq[i] = cand[(start+i)%len(cand)]
+			}
+			if rapid.IntRange(0, 2).Draw(t, "barrageLastOwn") > 0 {
+				seq[kk-1] = cand[0]
+			} else {
+				seq[kk-1] = cand[rapid.IntRange(0, len(cand)-1).Draw(t, "barrageLast")]
+			}
+			round := v.env.svc.state.round
+			if round == 0 {
+				round = 1
+			}
+			for _, st := range [][]Subround{{prevote}, {precommit}, {prevote, precommit}, {prevote, precommit}}[rapid.IntRange(0, 3).Draw(t, "barrageStages")] {
+				sim.barrage(b, v, st, round, seq)
 			}
 		case k < 94:
 			v := pickHonest("reorg")
@@ -979,6 +1072,62 @@ func TestC22KnownNoRoundEstimate(t *testing.T) {
 	}
 }
 
+// c22BarrageScenario: shrunk schedule of a seeded change (a cap on the recorded
+// equivocatory votes after which further votes of the equivocator were stored
+// as normal votes, so that it was counted twice). n=4, k2 Byzantine, tree
+// b0-{b1,b2}; k0 prefers b1 and is cut off from k1,k3 (b2) in round 1; k2 sends
+// k0 the pre-votes and pre-commits b2,b1,b2,b1,b1 and votes for b2 to k1,k3.
+// k1,k3,k2 finalise b2; k0 must not finalise b1 from its own vote plus k2.
+func c22BarrageScenario() (*c22Sim, error) {
+	sim, err := newC22Sim(4, []int{2}, []int{-1, 0, 0}, map[int]int{0: 1, 1: 2, 3: 2}, false)
+	if err != nil {
+		return nil, err
+	}
+	k0, k1, k3 := sim.voters[0], sim.voters[1], sim.voters[3]
+	give := func(v *c22Voter, descr string) error {
+		for i, m := range sim.pool {
+			if m.descr == descr {
+				sim.logf("deliver k%d <- %s", v.key, descr)
+				sim.deliver(v, i)
+				return nil
+			}
+		}
+		return fmt.Errorf("scenario: message %s is not on the network (%v)", descr, sim.log)
+	}
+	for _, v := range []*c22Voter{k0, k1, k3} {
+		sim.step(v) // initiateRound -> round 1
+		sim.step(v) // pre-vote: k0 b1, k1 (primary) b2, k3 b2
+	}
+	seq := []int{2, 1, 2, 1, 1}
+	sim.barrage(2, k0, prevote, 1, seq)
+	sim.barrage(2, k0, precommit, 1, seq)
+	sim.byzVote(2, prevote, 2, 1, 1<<1|1<<3, 2)
+	for _, x := range []struct {
+		v *c22Voter
+		m string
+	}{{k1, "pv:k2:r1:b2"}, {k3, "pv:k2:r1:b2"}, {k1, "pv:k3:r1:b2"}, {k3, "pv:k1:r1:b2"}} {
+		if err := give(x.v, x.m); err != nil {
+			return sim, err
+		}
+	}
+	sim.step(k0) // k0 sees b1 from itself and from the equivocator: 2 of 4, must wait
+	sim.step(k1) // pre-commit b2
+	sim.step(k3)
+	sim.byzVote(2, precommit, 2, 1, 1<<1|1<<3, 2)
+	for _, x := range []struct {
+		v *c22Voter
+		m string
+	}{{k1, "pc:k2:r1:b2"}, {k1, "pc:k3:r1:b2"}} {
+		if err := give(x.v, x.m); err != nil {
+			return sim, err
+		}
+	}
+	sim.step(k1) // finalises b2
+	sim.step(k0)
+	sim.step(k0)
+	return sim, nil
+}
+
 // TestC22Regressions: the recorded schedule must be safe unless the finding is
 // listed as open; with the steering on it must be withheld, not violated.
 func TestC22Regressions(t *testing.T) {
@@ -993,6 +1142,16 @@ func TestC22Regressions(t *testing.T) {
 	}
 	if open && sim.excluded == 0 {
 		t.Fatalf("the recorded schedule of %s did not reach its trigger\n%s", c22Finding, strings.Join(sim.log, "\n"))
+	}
+	sim, err = c22BarrageScenario()
+	if err != nil {
+		t.Fatalf("harness: %v", err)
+	}
+	if sim.violation != "" {
+		t.Fatalf("%s\nschedule:\n%s", sim.violation, strings.Join(sim.log, "\n"))
+	}
+	if len(sim.finals) == 0 {
+		t.Fatalf("barrage schedule: nothing was finalised\n%s", strings.Join(sim.log, "\n"))
 	}
 }
 
@@ -1045,7 +1204,7 @@ func TestC22QuorumIntersection(t *testing.T) {
 			fmt.Fprintf(&descr, " k%d:b%d", k, blk)
 		}
 		for k := 0; k < f; k++ {
-			for i := rapid.IntRange(0, 3).Draw(t, "byzVotes"); i > 0; i-- {
+			for i := rapid.SampledFrom([]int{0, 1, 2, 3, 3, 5, 8}).Draw(t, "byzVotes"); i > 0; i-- {
 				blk := near("byzBlk")
 				pool = append(pool, c22Entry{k, blk, vSignVote(k, precommit, tree.vote(blk), round, 0)})
 				fmt.Fprintf(&descr, " K%d:b%d", k, blk)
